@@ -60,8 +60,79 @@ void checkMap(Case& c, F& f, const Model& m, long liveExpected) {
   c.sawSize(m.size(), 0);
 }
 
+// Input ranges for the range constructors and insert(first,last): 0..~200 elements (well above libstdc++'s
+// 16-element insertion-sort threshold, below which std::sort happens to be stable) with duplicate-key patterns.
+// The model is built by inserting the same range into a std::map in order: the FIRST element of several with
+// equivalent keys survives.
+inline std::vector<std::pair<int, int>> makeRange(Case& c, unsigned keyRange, unsigned maxLen) {
+  Rng& rng   = c.rng;
+  unsigned n = (unsigned)rng.below(rng.pick({4u, 17u, 40u, maxLen + 1}));
+  std::vector<std::pair<int, int>> r;
+  switch (rng.below(4)) {
+  case 0: // few distinct keys, many duplicates
+  {
+    unsigned kr = 1 + (unsigned)rng.below(6);
+    for (unsigned i = 0; i < n; ++i)
+      r.emplace_back((int)rng.below(kr), c.nextVal());
+    break;
+  }
+  case 1: // d distinct keys first (descending), then duplicates of a few of them far behind
+  {
+    unsigned d = n ? 1 + (unsigned)rng.below(n) : 0;
+    for (unsigned i = 0; i < n; ++i)
+      r.emplace_back(i < d ? (int)(d - 1 - i) : (int)rng.below(d / 4 + 1), c.nextVal());
+    break;
+  }
+  case 2: // descending keys, each repeated a few times, interleaved
+  {
+    unsigned rep = 1 + (unsigned)rng.below(4);
+    for (unsigned i = 0; i < n; ++i)
+      r.emplace_back((int)((n - i) / rep) + (int)(i % rep == 0 ? 0 : (int)rng.below(3)), c.nextVal());
+    break;
+  }
+  default: // random keys from the case's key range
+    for (unsigned i = 0; i < n; ++i)
+      r.emplace_back((int)rng.below(keyRange), c.nextVal());
+    break;
+  }
+  return r;
+}
+
+//! every element of the model is looked up (find / const find / at / count / lower_bound), plus a few absent keys
+template <typename K, typename F, typename Model>
+void lookupSweep(Case& c, F& f, const Model& m) {
+  const F& cf = f;
+  long pos    = 0;
+  for (auto& kv : m) {
+    if (c.bad)
+      return;
+    K key(kv.first);
+    auto it = f.find(key);
+    c.eq("sweep-find-position", it == f.end() ? -1L : (long)std::distance(f.begin(), it), pos);
+    if (c.bad)
+      return;
+    c.eq("sweep-find-value", val((*it).second), kv.second);
+    auto ci = cf.find(key);
+    c.eq("sweep-const-find-position", ci == cf.end() ? -1L : (long)std::distance(cf.begin(), ci), pos);
+    c.eq("sweep-count", f.count(key), (size_t)1);
+    c.eq("sweep-lower_bound", (long)std::distance(f.begin(), f.lower_bound(key)), pos);
+    if (c.bad)
+      return;
+    c.eq("sweep-at", val(f.at(key)), kv.second);
+    c.eq("sweep-const-at", val(cf.at(key)), kv.second);
+    ++pos;
+  }
+  for (int probe : {-1, 3, 999999}) {
+    if (c.bad || m.count(probe))
+      continue;
+    K key(probe);
+    c.eq("sweep-absent-find", f.find(key) == f.end(), true);
+    c.eq("sweep-absent-count", f.count(key), (size_t)0);
+  }
+}
+
 template <typename K, typename V, typename Cmp>
-void mapT(Case& c, bool dupRange, unsigned keyRange, unsigned nops) {
+void mapT(Case& c, unsigned keyRange, unsigned nops) {
   typedef galois::flat_map<K, V, Cmp> F;
   typedef std::map<int, int, Cmp> Model;
   typedef typename F::value_type Pair;
@@ -73,32 +144,22 @@ void mapT(Case& c, bool dupRange, unsigned keyRange, unsigned nops) {
   auto posOf   = [&](int k) { return (long)std::distance(m.begin(), m.find(k)); };
   {
     std::unique_ptr<F> fp;
-    if (rng.below(4) == 0) {
-      // range construction; with duplicate keys std::map keeps one element per key (the first)
-      unsigned n = (unsigned)rng.below(12);
+    if (rng.below(3) == 0) {
+      // range construction; with duplicate keys std::map keeps the first element per key
+      auto in = makeRange(c, keyRange, 200);
       std::vector<Pair> init;
-      std::set<int> used;
-      for (unsigned i = 0; i < n; ++i) {
-        int k = randKey();
-        if (!dupRange && used.count(k))
-          continue;
-        used.insert(k);
-        int v = c.nextVal();
-        init.emplace_back(K(k), V(v));
-        m.emplace(k, v);
+      for (auto& kv : in) {
+        init.emplace_back(K(kv.first), V(kv.second));
+        m.emplace(kv.first, kv.second);
       }
-      c.op(dupRange ? "range-construct-with-duplicate-keys-allowed" : "range-construct", (long)init.size());
+      c.op("range-construct", (long)init.size(), (long)m.size());
       if (rng.below(2))
         fp.reset(new F(init.begin(), init.end()));
       else
         fp.reset(new F(init.begin(), init.end(), Cmp()));
-      // which of several equal keys survives is not demanded: adopt the value that is there
-      if (dupRange)
-        for (auto& kv : *fp) {
-          auto it = m.find(keyOf(kv.first));
-          if (it != m.end())
-            it->second = val(kv.second);
-        }
+      init.clear();
+      checkMap(c, *fp, m, live());
+      lookupSweep<K>(c, *fp, m);
     } else if (rng.below(2))
       fp.reset(new F());
     else
@@ -240,15 +301,19 @@ void mapT(Case& c, bool dupRange, unsigned keyRange, unsigned nops) {
         }
         }
       } else if (x < 84) {
-        unsigned n = (unsigned)rng.below(6);
+        auto in = makeRange(c, keyRange, rng.below(4) ? 12 : 120);
         std::vector<Pair> more;
-        for (unsigned i = 0; i < n; ++i) {
-          int kk = randKey(), v = c.nextVal();
-          more.emplace_back(K(kk), V(v));
-          m.emplace(kk, v); // first of equal keys wins, existing keys stay
+        for (auto& kv : in) {
+          more.emplace_back(K(kv.first), V(kv.second));
+          m.emplace(kv.first, kv.second); // first of equal keys wins, existing keys stay
         }
-        c.op("insert-range", n);
+        c.op("insert-range", (long)more.size());
         f.insert(more.begin(), more.end());
+        more.clear();
+        if (rng.below(4) == 0) {
+          checkMap(c, f, m, live());
+          lookupSweep<K>(c, f, m);
+        }
       } else if (x < 87) {
         c.op("clear");
         f.clear();
@@ -258,14 +323,35 @@ void mapT(Case& c, bool dupRange, unsigned keyRange, unsigned nops) {
         std::unique_ptr<F> np;
         Model om;
         auto fill = [&](F& o) {
-          unsigned n = (unsigned)rng.below(5);
+          unsigned n = (unsigned)rng.below(rng.below(4) ? 5 : 60);
           for (unsigned i = 0; i < n; ++i) {
             int kk = randKey(), v = c.nextVal();
             o.insert(Pair(K(kk), V(v)));
             om.emplace(kk, v);
           }
         };
-        switch (rng.below(5)) {
+        bool sweepAfter = false;
+        switch (rng.below(7)) {
+        case 5:
+        case 6: {
+          // a new map range-constructed from a fresh input replaces the current one
+          auto in = makeRange(c, keyRange, 200);
+          std::vector<Pair> init;
+          Model nm;
+          for (auto& kv : in) {
+            init.emplace_back(K(kv.first), V(kv.second));
+            nm.emplace(kv.first, kv.second);
+          }
+          c.op("range-construct", (long)init.size(), (long)nm.size());
+          if (rng.below(2))
+            np.reset(new F(init.begin(), init.end()));
+          else
+            np.reset(new F(init.begin(), init.end(), Cmp()));
+          init.clear();
+          m.swap(nm);
+          sweepAfter = true;
+          break;
+        }
         case 0:
           c.op("copy-construct");
           np.reset(new F(cf));
@@ -304,6 +390,10 @@ void mapT(Case& c, bool dupRange, unsigned keyRange, unsigned nops) {
         }
         if (!c.bad)
           fp = std::move(np); // the old object (copied-from / moved-from / swapped-out) is destroyed
+        if (sweepAfter && !c.bad) {
+          checkMap(c, *fp, m, live());
+          lookupSweep<K>(c, *fp, m);
+        }
       }
       checkMap(c, *fp, m, live());
     }
@@ -316,20 +406,18 @@ void mapT(Case& c, bool dupRange, unsigned keyRange, unsigned nops) {
 
 void run_flat_map(Case& c) {
   unsigned types    = (unsigned)c.rng.below(4); // 0 int->Tracked, 1 int->Pod, 2 Tracked->Tracked, 3 int->Tracked with std::greater
-  bool dupRange     = c.rng.below(4) == 0;
-  unsigned keyRange = c.rng.pick({4u, 12u, 40u});
+  unsigned keyRange = c.rng.pick({4u, 12u, 40u, 300u});
   unsigned nops     = c.pickOps();
   static const char* TN[] = {"int->tracked", "int->pod", "tracked->tracked", "int->tracked,greater"};
-  std::string cfg = std::string(TN[types]) + "|keys" + std::to_string(keyRange) + (dupRange ? "|duprange" : "");
+  std::string cfg = std::string(TN[types]) + "|keys" + std::to_string(keyRange);
   if (!c.begin("flat_map", cfg,
-          J().kv("types", TN[types]).kv("key_range", keyRange).kv("range_ctor_may_get_duplicate_keys", dupRange)
-              .kv("nops", nops)))
+          J().kv("types", TN[types]).kv("key_range", keyRange).kv("nops", nops)))
     return;
   switch (types) {
-  case 0: return mapT<int, Tracked, std::less<>>(c, dupRange, keyRange, nops);
-  case 1: return mapT<int, Pod, std::less<>>(c, dupRange, keyRange, nops);
-  case 2: return mapT<Tracked, Tracked, std::less<>>(c, dupRange, keyRange, nops);
-  default: return mapT<int, Tracked, std::greater<>>(c, dupRange, keyRange, nops);
+  case 0: return mapT<int, Tracked, std::less<>>(c, keyRange, nops);
+  case 1: return mapT<int, Pod, std::less<>>(c, keyRange, nops);
+  case 2: return mapT<Tracked, Tracked, std::less<>>(c, keyRange, nops);
+  default: return mapT<int, Tracked, std::greater<>>(c, keyRange, nops);
   }
 }
 
